@@ -120,12 +120,24 @@ def shrink_prefix(case, pidnum):
     return best
 
 
+# the hypotheses of the theorems (valid poll inputs along the run, in both agents' formulations) are
+# asserted on every generated history, inside Coq, together with correspondence and monitors
+HEADER_V = H.HEADER + """
+From MWF Require Exec.ExecPoll Exec.ExecLedger3.
+Definition hyp_ok (e : ecase) : bool :=
+  ExecPoll.valid_pins (e_cfg e) (e_g e) (init (e_g e)) (e_pins e) &&
+  ExecLedger3.valid_run (e_cfg e) (e_g e) (init (e_g e)) (e_pins e) &&
+  (0 <? attempts (e_cfg e)).
+Definition both_ok_v (pid : nat) (e : ecase) : bool := both_ok pid e && hyp_ok e.
+"""
+
+
 def evaluate(ck, pidnum, cases, tag):
     """Returns lists (concrete, mismatches) of (what, case)."""
     rep = [c for c in cases if H.representable(c)]
     crashed = [c for c in cases if not H.representable(c)]
     lits = [H.g_case(c) for c in rep]
-    bad, errs = common.coq_failing(tag, H.HEADER, "ecase", "both_ok %d" % pidnum, lits)
+    bad, errs = common.coq_failing(tag, HEADER_V, "ecase", "both_ok_v %d" % pidnum, lits)
     concrete, mism = [], []
     for e in errs:
         mism.append(("coqc failed on a generated cases file", None, e[1]))
@@ -158,6 +170,9 @@ def evaluate(ck, pidnum, cases, tag):
                 mism.append(("the regenerated model violates the monitor (codes %s)" % " ".join(codes.split()), strip(c), ""))
             elif k in b_wf:
                 mism.append(("generated graph not well-formed (harness bug)", strip(c), ""))
+            else:
+                mism.append(("the history does not satisfy the theorems' hypotheses (valid poll inputs): harness bug or the "
+                             "implementation queried/answered for jobs outside its in-progress set", strip(c), ""))
     return concrete, mism
 
 
